@@ -1053,7 +1053,7 @@ impl<R: RefCounter, PR: PathRefCounter, H: Header> Memory<R, PR, H> {
         } => {
           if remove_on_drop.load(Ordering::Acquire) {
             let _ = Box::from_raw(*buf);
-            core::ptr::drop_in_place(file);
+            // the file handle is closed exactly once, when `self` is dropped right after `unmount`
             let _ = std::fs::remove_file(path.as_path());
             return;
           }
@@ -1063,14 +1063,13 @@ impl<R: RefCounter, PR: PathRefCounter, H: Header> Memory<R, PR, H> {
         }
         MemoryBackend::Mmap {
           path,
-          file,
           buf,
           remove_on_drop,
           ..
         } => {
           if remove_on_drop.load(Ordering::Acquire) {
             let _ = Box::from_raw(*buf);
-            core::ptr::drop_in_place(file);
+            // the file handle is closed exactly once, when `self` is dropped right after `unmount`
             let _ = std::fs::remove_file(path.as_path());
             return;
           }
